@@ -24,6 +24,7 @@ class Decl(object):
         self.ics = []
         self.globals = []
         self.gold_manual = [] # (sector handle, flow variable) booked with SetGoldPurchases at construction time
+        self.exclusions = []  # (sector handle, flow name) declared with Model.AddCashFlowIncomeExclusion
         self.unsupported = [] # reasons why the ledger cannot be fully trusted for this program
 
 
@@ -116,6 +117,9 @@ def declare(ops):
         elif name == 'SetGoldPurchases':
             if op['sector'] in d.sectors:
                 d.gold_manual.append((op['sector'], op['var']))
+        elif name == 'Exclude':
+            if op['sector'] in d.sectors:
+                d.exclusions.append((op['sector'], op['name']))
         elif name == 'AddCashFlow':
             d.unsupported.append('AddCashFlow')
         elif name == 'SetExogenous':
